@@ -14,6 +14,9 @@ def run(tier, seed):
     deductive(rep, "C16", ["markdown_it.helpers.parse_link_title.parseLinkTitle", "markdown_it.helpers.parse_link_destination.parseLinkDestination"], "contracts.helpers")
     from .c17 import add_refdef
     add_refdef(rep, "C16")
+    # link / image give up only for a stated reason: a bracketed text whose label is defined always resolves
+    import contracts.linkc as LK
+    deductive(rep, "C16", [LK.Q, LK.QI], "contracts.linkc")
     cfgs = ["commonmark", "js-default"]
     gen_universe(rep, "vf.oracles2:c16_refs", "vf.oracles2:gen_c16_refs", tier, "rules_block.reference / MarkdownIt.render", "render(D, env seeded by R) == render(R + blank + D); same records (first wins, duplicates)",
                  cfgs, "definition documents x using documents (incl. duplicates, multi-line titles, container-nested definitions); distinct = distinct (refs, dups, output prefix)", "R x D")
